@@ -8,7 +8,8 @@ EXTENDS Columns, Json
 
 Kinds == {"u64", "i64", "f64", "bool", "date", "ip", "str", "bytes", "mixed"}
 PatternsOf(k) ==
-  CASE k \in {"u64", "i64"} -> {"const", "linear", "linear_noise", "blockwise", "small", "gcd", "bits", "clusters", "sorted", "extremes", "full"}
+  CASE k \in {"u64", "i64"} -> {"const", "linear", "linear_noise", "blockwise", "small", "gcd", "bits", "clusters", "sorted", "extremes", "full",
+                                 "above32", "gcd32", "wide31"}      \* values just above 2^32, with a gcd, 31 bits wide
     [] k = "f64" -> {"const", "linear", "small", "extremes", "full"}
     [] k = "bool" -> {"const", "small"}
     [] k = "date" -> {"linear", "small", "extremes", "full"}
